@@ -129,7 +129,7 @@ pub fn run(ctx: &mut Ctx) {
     let ff1 = namespace_ending_in(0xFF, 1);
     let ff2 = namespace_ending_in(0xFF, 2);
     let z0 = namespace_ending_in(0x00, 3);
-    for case in ctx.cases(150, 20_000) {
+    for case in ctx.cases(800, 60_000) {
         let mut rng = ctx.rng(case);
         let backend = if rng.chance(1, 6) { Backend::File } else { Backend::Memory };
         let (mut store, _p) = new_store(backend, &scratch);
